@@ -47,8 +47,13 @@ TRANSPARENT_OUTCOME = {"branch", "ok_or", "ok_or_else", "map_err", "as_ref", "as
 def _outcome_root(v):
     """strip wrappers that preserve success/failure of an Option/Result"""
     n = 0
-    while v.kind == "call" and v.d["term"].get("name") in TRANSPARENT_OUTCOME and v.kids and n < 20:
-        v = v.kids[0]
+    while n < 40:
+        if v.kind == "alias" and v.kids:
+            v = v.kids[0]
+        elif v.kind == "call" and v.d["term"].get("name") in TRANSPARENT_OUTCOME and v.kids:
+            v = v.kids[0]
+        else:
+            break
         n += 1
     return v
 
@@ -506,7 +511,11 @@ class Loop:
                 for k in ks:
                     rec(k, adaptors, depth + 1)
                 return
-            if v.kind == "cycle":
+            if v.kind in ("cycle", "pending"):
+                return
+            if v.kind == "alias":
+                for k in v.kids:
+                    rec(k, adaptors, depth + 1)
                 return
             if v.kind == "call" and v.d["term"].get("name") in ITER_BUILDERS and v.kids:
                 nm = v.d["term"].get("name")
